@@ -201,7 +201,7 @@ func (s *Set) parseFile(path, rel string) error {
 			return fmt.Errorf("%s:%d: clause %q outside a func block", path, ln, t)
 		}
 		switch word {
-		case "pure", "inline", "trusted", "orderlaws", "sortlaws", "mergelaws", "rulesmerge", "nopanic", "noident", "fromlog", "maprange":
+		case "pure", "inline", "trusted", "orderlaws", "sortlaws", "mergelaws", "rulesmerge", "nopanic", "noident", "freshresult", "fromlog", "maprange":
 			cur.Flags[word] = true
 			if rest != "" {
 				cur.Opts[word] = rest
